@@ -297,12 +297,29 @@ var builtinTypes = map[string]gschema.NamedType{
 	"Int": graphql.IntType, "Float": graphql.FloatType, "String": graphql.StringType, "Boolean": graphql.BooleanType, "ID": graphql.IDType,
 }
 
-// defaultFor: the default value for an input value of the given type — a function of the type only;
-// nil for list-typed and input-object-typed values.
+// defaultFor: the default value for an input value of the given type — a function of the type only
+// (so that the erased schema, built separately, gets the same defaults): a fixed value for the
+// built-in scalars and custom scalars, the first value of an enum, a one-element list for a list type,
+// and for an input object the one-key object holding a default for the one field that needs a value
+// (non-null without a default of its own), else for its first field. nil when no such value exists
+// within depth 3 (or two fields need a value).
 func defaultFor(spec *Spec, typ string) interface{} {
-	t := parseType(typ)
+	return defaultForT(spec, parseType(typ), 0)
+}
+
+func defaultForT(spec *Spec, t *tref, depth int) interface{} {
+	if t.invalid || depth > 3 {
+		return nil
+	}
 	if t.kind == 2 {
 		t = t.inner
+	}
+	if t.kind == 1 {
+		el := defaultForT(spec, t.inner, depth+1)
+		if el == nil {
+			return nil
+		}
+		return []interface{}{el}
 	}
 	if t.kind != 0 {
 		return nil
@@ -319,10 +336,42 @@ func defaultFor(spec *Spec, typ string) interface{} {
 	case "Float":
 		return 1.5
 	}
-	if ts := spec.find(t.name); ts != nil && ts.Kind == "enum" && len(ts.Values) > 0 {
+	ts := spec.find(t.name)
+	switch {
+	case ts == nil:
+		return nil
+	case ts.Kind == "enum" && len(ts.Values) > 0:
 		return ts.Values[0]
-	} else if ts != nil && ts.Kind == "scalar" && ts.Builtin == "" {
+	case ts.Kind == "scalar" && ts.Builtin == "":
 		return "sc0"
+	case ts.Kind == "input":
+		// exactly one key (the library prints a default value in Go map order: two keys would make the
+		// introspection text differ from run to run): the one field that needs a value, else the first field
+		var need []ArgSpec
+		for _, f := range ts.Inputs {
+			hasDefault := false
+			for _, dn := range ts.InputDefaults {
+				hasDefault = hasDefault || dn == f.Name
+			}
+			if strings.HasSuffix(f.Type, "!") && !hasDefault {
+				need = append(need, f)
+			}
+		}
+		if len(need) > 1 || len(ts.Inputs) == 0 {
+			return nil
+		}
+		f := ts.Inputs[0]
+		if len(need) == 1 {
+			f = need[0]
+		}
+		v := defaultForT(spec, parseType(f.Type), depth+1)
+		if v == nil {
+			if len(need) == 1 {
+				return nil
+			}
+			return map[string]interface{}{}
+		}
+		return map[string]interface{}{f.Name: v}
 	}
 	return nil
 }
@@ -334,6 +383,12 @@ func buildSchema(spec *Spec, w *world) (b *built, err error) {
 	def, named, err := buildDefinition(spec, w)
 	if err != nil {
 		return nil, err
+	}
+	if spec.Staged == 2 {
+		// the clone's list / non-null wrappers exist before its types get their features
+		def = def.Clone()
+		named = namedTypesOf(def)
+		assignTypeReqs(spec, named)
 	}
 	s, err := graphql.NewSchema(def)
 	if err != nil {
@@ -356,6 +411,10 @@ func buildDefinition(spec *Spec, w *world) (def *graphql.SchemaDefinition, named
 	fail := func(format string, a ...interface{}) { panic(&buildError{fmt.Sprintf(format, a...)}) }
 
 	named = map[string]gschema.NamedType{}
+	typeReq := reqSet
+	if spec.Staged != 0 {
+		typeReq = func([]string) graphql.FeatureSet { return nil } // assigned later: assignTypeReqs
+	}
 	for _, t := range spec.Types {
 		if _, dup := named[t.Name]; dup {
 			fail("duplicate type name %s", t.Name)
@@ -375,15 +434,15 @@ func buildDefinition(spec *Spec, w *world) (def *graphql.SchemaDefinition, named
 				named[t.Name] = apifu.PageInfoType
 			} else {
 				tn := t.Name
-				named[t.Name] = &graphql.ObjectType{Name: t.Name, RequiredFeatures: reqSet(t.Req), IsTypeOf: func(v interface{}) bool {
+				named[t.Name] = &graphql.ObjectType{Name: t.Name, RequiredFeatures: typeReq(t.Req), IsTypeOf: func(v interface{}) bool {
 					o, ok := v.(*obj)
 					return ok && o.isA(tn)
 				}}
 			}
 		case "interface":
-			named[t.Name] = &graphql.InterfaceType{Name: t.Name, RequiredFeatures: reqSet(t.Req)}
+			named[t.Name] = &graphql.InterfaceType{Name: t.Name, RequiredFeatures: typeReq(t.Req)}
 		case "union":
-			named[t.Name] = &graphql.UnionType{Name: t.Name, RequiredFeatures: reqSet(t.Req)}
+			named[t.Name] = &graphql.UnionType{Name: t.Name, RequiredFeatures: typeReq(t.Req)}
 		case "enum":
 			vs := map[string]*graphql.EnumValueDefinition{}
 			for _, v := range t.Values {
@@ -397,11 +456,19 @@ func buildDefinition(spec *Spec, w *world) (def *graphql.SchemaDefinition, named
 					}
 				}
 			}
-			named[t.Name] = &graphql.EnumType{Name: t.Name, RequiredFeatures: reqSet(t.Req), Values: vs}
+			named[t.Name] = &graphql.EnumType{Name: t.Name, RequiredFeatures: typeReq(t.Req), Values: vs}
 		case "input":
-			named[t.Name] = &graphql.InputObjectType{Name: t.Name, RequiredFeatures: reqSet(t.Req)}
+			it := &graphql.InputObjectType{Name: t.Name, RequiredFeatures: typeReq(t.Req)}
+			// schema.New wants a result coercion of every input object that is the type of a default value
+			it.ResultCoercion = func(v interface{}) (map[string]interface{}, error) {
+				if m, ok := v.(map[string]interface{}); ok {
+					return m, nil
+				}
+				return nil, fmt.Errorf("not an input object value: %T", v)
+			}
+			named[t.Name] = it
 		case "scalar":
-			named[t.Name] = &graphql.ScalarType{Name: t.Name, RequiredFeatures: reqSet(t.Req),
+			named[t.Name] = &graphql.ScalarType{Name: t.Name, RequiredFeatures: typeReq(t.Req),
 				LiteralCoercion: func(v ast.Value) interface{} {
 					if s, ok := v.(*ast.StringValue); ok {
 						return s.Value
@@ -455,7 +522,7 @@ func buildDefinition(spec *Spec, w *world) (def *graphql.SchemaDefinition, named
 		}
 		return out
 	}
-	// setDefaults gives the named input values a default (scalar / enum typed, non-list ones only)
+	// setDefaults gives the named input values a default (defaultFor: scalars, enums, lists, input objects)
 	setDefaults := func(defs map[string]*graphql.InputValueDefinition, as []ArgSpec, names []string) {
 		for _, dn := range names {
 			for _, a := range as {
@@ -697,5 +764,46 @@ func buildDefinition(spec *Spec, w *world) (def *graphql.SchemaDefinition, named
 		}
 		def.Subscription = m
 	}
+	if spec.Staged == 1 {
+		assignTypeReqs(spec, named)
+	}
 	return def, named, nil
+}
+
+// assignTypeReqs completes the named types the harness declared without features (Spec.Staged).
+func assignTypeReqs(spec *Spec, named map[string]gschema.NamedType) {
+	for _, t := range spec.Types {
+		if t.Builtin != "" || len(t.Req) == 0 {
+			continue
+		}
+		switch nt := named[t.Name].(type) {
+		case *graphql.ObjectType:
+			nt.RequiredFeatures = reqSet(t.Req)
+		case *graphql.InterfaceType:
+			nt.RequiredFeatures = reqSet(t.Req)
+		case *graphql.UnionType:
+			nt.RequiredFeatures = reqSet(t.Req)
+		case *graphql.EnumType:
+			nt.RequiredFeatures = reqSet(t.Req)
+		case *graphql.InputObjectType:
+			nt.RequiredFeatures = reqSet(t.Req)
+		case *graphql.ScalarType:
+			nt.RequiredFeatures = reqSet(t.Req)
+		}
+	}
+}
+
+// namedTypesOf collects the named types a definition reaches, by name.
+func namedTypesOf(def *graphql.SchemaDefinition) map[string]gschema.NamedType {
+	byName := map[string]gschema.NamedType{}
+	gschema.Inspect(def, func(n interface{}) bool {
+		if nt, ok := n.(gschema.NamedType); ok {
+			if byName[nt.TypeName()] != nil {
+				return false // types refer to each other in cycles
+			}
+			byName[nt.TypeName()] = nt
+		}
+		return true
+	})
+	return byName
 }
